@@ -240,6 +240,22 @@ def gen_C01(tier, rng):
             c.q("weight %d %d" % (r1, 1 if cj else (1 << width) - 1)); c.q("weight %d %d" % (r3, 1 if cj else (1 << width) - 1))
             dist["nary_width_%d" % width] += 1
             cases.append(c.done("nary%d/%d" % (width, cj), True))
+    # tables of 2^16 rows and more out of diagrams and expressions (17 inputs): beyond the practical reach of the extracted
+    # model (minutes per conversion), so the conversion is not executed by the model (`bigconv`) and the observation is the
+    # weight, whose expected value the generator knows in closed form -- a plain test oracle, not the model, for this size only
+    for nv_, rep in ((17, 0), (17, 1)) if tier == "quick" else ((17, 0), (17, 1), (18, 0), (18, 1)):
+        vs = ["y%02d" % i for i in range(nv_)]
+        i_, j_, k_, l_ = (0, nv_ - 1, 3, 9) if rep == 0 else (nv_ - 1, 0, 5, nv_ - 2)
+        # f = (v_i & !v_j) | (v_k & v_l), padded so that every variable is declared: weight = 2^n * (1/4 + 1/4 - 1/16)
+        core = gen.O([gen.A([gen.L(vs[i_]), gen.Nn(gen.L(vs[j_]))]), gen.A([gen.L(vs[k_]), gen.L(vs[l_])])])
+        e = gen.A([core] + [gen.O([gen.L(x), gen.Nn(gen.L(x))]) for x in vs])
+        expected = (1 << nv_) * 7 // 16
+        c = Case("c01_%d" % n); n += 1
+        r0 = c.r("expr " + pe(e)); r1 = c.r("conv B %d" % r0); c.q("weight %d %d" % (r1, expected))
+        r2 = c.r("bigconv T %d" % r1); c.q("weight %d %d" % (r2, expected))
+        r3 = c.r("bigconv T %d" % r0); c.q("weight %d %d" % (r3, expected))
+        dist["table_of_2^%d_rows" % nv_] += 1
+        cases.append(c.done("big%d/%d" % (nv_, rep), True))
     for _ in range(120 if tier == "quick" else 1200):
         names = gen.NAMES[: rng.randint(2, 7)]
         e = gen.rand_tree(rng, rng.randint(2, 6), names)
@@ -252,7 +268,7 @@ def gen_C01(tier, rng):
         dist["random_chain"] += 1
         cases.append(c.done(pe(e), True))
     return {"cases": cases, "exhaustive": True, "dist": dict(dist),
-            "rule": "every truth function of <= 3 variables as an expression (DNF/CNF/Shannon shapes; quick: one shape per 3-variable function) pushed through EVERY conversion path of length <= %d (2+4+..+2^k paths), full observation after each step; parity / majority / xor-rich functions of 5-7 (9) variables through the diagram paths (large diagrams and normal forms); sparse asymmetric DNF/CNF of 8-10 (12) variables through the table paths; single And/Or nodes of 17-40 (65) operands through expression <-> diagram (evaluation at assignments singling out each operand, weight); random trees through random chains of 3-10 conversions; non-trivial = non-constant function; distinct = (function, shape)" % depth}
+            "rule": "every truth function of <= 3 variables as an expression (DNF/CNF/Shannon shapes; quick: one shape per 3-variable function) pushed through EVERY conversion path of length <= %d (2+4+..+2^k paths), full observation after each step; parity / majority / xor-rich functions of 5-7 (9) variables through the diagram paths (large diagrams and normal forms); sparse asymmetric DNF/CNF of 8-10 (12) variables through the table paths; single And/Or nodes of 17-40 (65) operands through expression <-> diagram (evaluation at assignments singling out each operand, weight); tables of 2^17 (2^18) rows out of diagrams and expressions, observed by their weight against a closed form (the model does not execute these); random trees through random chains of 3-10 conversions; non-trivial = non-constant function; distinct = (function, shape)" % depth}
 
 
 # ------------------------------------------------------------------ C03 / C04
